@@ -466,6 +466,32 @@ def run(ctx):
                       found_input=False)
     # name tables linking the stage files (C18 first sentence)
     stagefiles_util.run_c18(ctx)
+    # ... and the same stream aimed at the multi-file reference route: >= 2
+    # h5ad files that share a base name in different directories, copied to
+    # scratch first (copy_data_over=True).  The random stream reaches that
+    # combination in ~12% of its cases only.
+    _names_aimed_multifile(ctx, 4 if ctx.tier == 'quick' else 24)
+
+
+def _names_aimed_multifile(ctx, n):
+    from props import c09
+    plain = c09.RunConfig
+
+    class Aimed(plain):
+        def __init__(self, rng, ref, force=None):
+            f = dict(force or {})
+            if len(ref.names) > 1:
+                f.setdefault('files', c09.split_files(
+                    rng, len(ref.names), rng.choice([2, 2, 3, 4])))
+            f.setdefault('copy_over', True)
+            f.setdefault('layout', 'same_base')
+            plain.__init__(self, rng, ref, f)
+
+    c09.RunConfig = Aimed
+    try:
+        stagefiles_util.run_c18(ctx, n=n)
+    finally:
+        c09.RunConfig = plain
 
 
 def replay(ctx, data, from_corpus=False):
